@@ -18,6 +18,15 @@
  *
  * rand() is wrapped (-Wl,--wrap=rand): the script supplies the draws.
  *
+ * "rawswap sz i j b0 b1 ..." (independent of the header): the (n+1)*sz byte
+ * values are copied into a malloc block of exactly that size (ASan redzones
+ * on both sides: any access of cstl_swap outside array + scratch is a fault),
+ * cstl_swap(buf + i*sz, buf + j*sz, buf + n*sz, sz) is called directly and
+ * the n*sz array bytes are printed, then "| ~" and the sz scratch bytes.
+ * The header only says the scratch "may be used": the property oracle ignores
+ * it; the comparison with the byte-level model (SwapModel.bytes_swap, which
+ * follows the code: the scratch ends up holding the old *x) includes it.
+ *
  * "big" operations (bigreverse / bigsearch) work on byte arrays of more than
  * 2^31 elements without logging; they are meant for the non-sanitized build. */
 #include "hcommon.h"
@@ -165,6 +174,28 @@ static void print_log(void)
 static int keys_cap, nkeys;
 static int * keys;
 
+/* ---- cstl_swap by itself on raw bytes ---- */
+static int run_rawswap(const struct h_line * l)
+{
+    const size_t sz = (size_t)h_u64(l, 1), i = (size_t)h_u64(l, 2), j = (size_t)h_u64(l, 3);
+    const size_t nb = l->nw > 4 ? (size_t)(l->nw - 4) : 0;
+    size_t n, k;
+    unsigned char * buf;
+    if (sz < 1 || nb < sz || nb % sz != 0) { printf("precond\n"); return 0; }
+    n = nb / sz - 1;
+    buf = malloc(nb);
+    for (k = 0; k < nb; k++) buf[k] = (unsigned char)h_int(l, (int)k + 4);
+    /* addresses as __cstl_raw_array_at computes them; out-of-range i / j run into the redzone */
+    cstl_swap(buf + i * sz, buf + j * sz, buf + n * sz, sz);
+    printf("ok 0 |");
+    for (k = 0; k < n * sz; k++) printf(" %u", (unsigned)buf[k]);
+    printf(" | ~");
+    for (k = n * sz; k < nb; k++) printf(" %u", (unsigned)buf[k]);
+    printf("\n");
+    free(buf);
+    return 1;
+}
+
 /* ---- operations on more than 2^31 one-byte elements (no logging) ---- */
 static unsigned long long big_nswap, big_ncmp;
 static unsigned char big_pat(size_t k) { return (unsigned char)(k * 131 + (k >> 13) + (k >> 27)); }
@@ -247,6 +278,7 @@ static void run_case(const struct h_case * c)
             continue;
         }
         if (h_weq(l, 0, "bigreverse") || h_weq(l, 0, "bigsearch")) { run_big(l); continue; }
+        if (h_weq(l, 0, "rawswap")) { if (!run_rawswap(l)) return; continue; }
         if (es < 1) { printf("precond\n"); return; }
 
         n = (size_t)nkeys;
